@@ -321,7 +321,7 @@ func caseB(c caseT) {
 	case ok:
 		run.Case("b|"+body, false, nil)
 		run.Tag("b:" + c.Kind + ":still-valid")
-		if na := gen.FirstNonASCII(body); (c.Kind == "illegal-char" || c.Kind == "insert-never-viable") && (na < 0 || na >= c.UB) {
+		if na := gen.FirstNonASCII(body); (c.Kind == "illegal-char" || c.Kind == "insert-never-viable" || c.Kind == "insert-never-viable+malformed-next" || c.Kind == "rejected-token-then-malformed-lexeme") && (na < 0 || na >= c.UB) {
 			// the harness claimed that no valid document starts with this text, yet the parser accepts it
 			violation("the parser accepts a text into which a never-valid character or token was inserted outside strings and comments", c, det)
 		}
@@ -442,7 +442,63 @@ func inTopLevelParens(toks []gen.Tok, k int) bool {
 	return braces == 0 && parens > 0
 }
 
+// malformedLexeme: a lexeme the lexer rejects, as a pseudo token (kind name, so that it is kept apart from names and numbers).
+func malformedLexeme(r *hx.Rng) gen.Tok {
+	if r.Chance(1, 2) {
+		return tk(illegal[r.Intn(len(illegal))], gen.TName)
+	}
+	return tk(r.Pick([]string{"\"abc\n", "\"a\\qb\"", "1. ", "01", "1e ", "..", "-x", ".5", "\"\\u12G4\""}), gen.TName)
+}
+
+// rejectedThenMalformed: the parser must reject token K — every template's tokens before K are a prefix of a valid document and
+// K is not viable after them (a reserved or unknown word where a particular name is required, a token of the wrong kind, the closing
+// token of an empty list, a keyword that cannot follow a description) — and the lexeme FOLLOWING K is lexically malformed. A parser that
+// consumes K (and thereby lexes the next lexeme) before judging it reports the later lexical error instead (seeded C18-7, D-18b, D-18c).
+var rejectedTemplates = [][2][]gen.Tok{
+	{{p("{"), nm("a"), p("}"), nm("fragment"), nm("on")}, {nm("Query"), p("{"), nm("a"), p("}")}},
+	{{nm("fragment"), nm("on")}, {nm("on"), nm("T"), p("{"), nm("a"), p("}")}},
+	{{nm("schema"), p("{"), nm("subscrip")}, {p(":"), nm("Q"), p("}")}},
+	{{tk(`"d"`, gen.TString), nm("query")}, {p("{"), nm("a"), p("}")}},
+	{{tk(`"d"`, gen.TString), nm("fragment")}, {nm("F"), nm("on"), nm("T"), p("{"), nm("a"), p("}")}},
+	{{tk(`"""d"""`, gen.TString), nm("extend")}, {nm("type"), nm("T"), p("{"), nm("a"), p(":"), nm("Int"), p("}")}},
+	{{tk(`"d"`, gen.TString), nm("schema")}, {p("{"), nm("query"), p(":"), nm("Q"), p("}")}},
+	{{nm("extend"), nm("foo")}, {nm("T"), p("{"), nm("a"), p(":"), nm("Int"), p("}")}},
+	{{nm("directive"), p("@"), nm("d"), nm("foo")}, {nm("FIELD")}},
+	{{nm("fragment"), nm("F"), nm("foo")}, {nm("T"), p("{"), nm("a"), p("}")}},
+	{{nm("foo")}, {p("{"), nm("a"), p("}")}},
+	{{p("{"), nm("a"), p("}"), nm("foo")}, {}},
+	{{p("{"), p("}")}, {}},
+	{{p("{"), nm("a"), p("("), p(")")}, {p("}")}},
+	{{nm("query"), p("("), p(")")}, {p("{"), nm("a"), p("}")}},
+	{{nm("schema"), p("{"), p("}")}, {}},
+	{{nm("query"), nm("Q"), nm("foo")}, {p("{"), nm("a"), p("}")}},
+	{{p("{"), nm("a"), p(":"), p(":")}, {nm("b"), p("}")}},
+	{{nm("type"), nm("T"), p("{"), nm("a"), p("{")}, {p("}")}},
+	{{p("{"), p("..."), nm("on"), p("{")}, {nm("a"), p("}"), p("}")}},
+	{{nm("union"), nm("U"), p("="), p("{")}, {}},
+	{{p("{"), nm("a"), p("@"), p("(")}, {p("}")}},
+	{{nm("query"), p("("), p("$"), p(":")}, {nm("Int"), p(")"), p("{"), nm("a"), p("}")}},
+	{{p("{"), nm("a"), p("("), nm("x"), p(":"), p(")")}, {p("}")}},
+	{{p("{"), nm("a"), p("("), nm("x"), p(":"), p("["), num("1"), p(")")}, {p("}")}},
+	{{nm("input"), nm("I"), p("{"), nm("a"), p(":"), nm("Int"), p("="), p("$")}, {nm("v"), p("}")}},
+	{{nm("mutation"), p("{"), nm("a"), p("}"), nm("subscription"), p("}")}, {}},
+	{{nm("enum"), nm("E"), p("{"), nm("A"), p("}"), nm("scalar"), num("1")}, {}},
+}
+
+func genRejectedThenMalformed(r *hx.Rng) (caseT, bool) {
+	t := rejectedTemplates[r.Intn(len(rejectedTemplates))]
+	toks := append([]gen.Tok{}, t[0]...)
+	k := len(toks) - 1
+	toks = append(toks, malformedLexeme(r))
+	toks = append(toks, t[1]...)
+	text, st := gen.Layout(r, toks, gen.LayoutOpts{Dense: r.Chance(1, 3)})
+	return caseT{Stream: "b", Kind: "rejected-token-then-malformed-lexeme", Body: b64(text), LB: st[k], UB: st[k]}, true
+}
+
 func genB(r *hx.Rng) (caseT, bool) {
+	if r.Chance(1, 8) {
+		return genRejectedThenMalformed(r)
+	}
 	g := &gen.DocGen{R: r, Size: r.Range(1, 4), Exec: r.Chance(3, 4), TypeSystem: r.Chance(1, 2), Exotic: true}
 	src := g.Document()
 	if _, ok, _, _ := parseErr(src); !ok {
@@ -468,6 +524,7 @@ func genB(r *hx.Rng) (caseT, bool) {
 	}
 	c.Kind = kinds[r.Intn(len(kinds))]
 	var text string
+	malformedNext := false
 	switch c.Kind {
 	case "delete", "insert", "swap", "insert-never-viable":
 		k := r.Intn(len(toks))
@@ -475,7 +532,13 @@ func genB(r *hx.Rng) (caseT, bool) {
 		switch c.Kind {
 		case "insert-never-viable":
 			k = r.Intn(len(toks) + 1)
-			nt = append(append(append(nt, toks[:k]...), p(r.Pick([]string{"|", "&"}))), toks[k:]...)
+			nt = append(append(nt, toks[:k]...), p(r.Pick([]string{"|", "&"})))
+			if r.Chance(1, 2) {
+				// ... followed by a malformed lexeme: the rejected token, not the lexical error behind it, must be reported
+				nt = append(nt, malformedLexeme(r))
+				malformedNext = true
+			}
+			nt = append(nt, toks[k:]...)
 		case "delete":
 			nt = append(append(nt, toks[:k]...), toks[k+1:]...)
 		case "insert":
@@ -499,11 +562,14 @@ func genB(r *hx.Rng) (caseT, bool) {
 			c.LB, c.UB = len(text), len(text)
 		}
 		if c.Kind == "insert-never-viable" {
+			if malformedNext {
+				c.Kind = "insert-never-viable+malformed-next"
+			}
 			c.UB = c.LB
 			if inTopLevelParens(toks, k) {
 				// D-03b (known finding of C03): parseType consumes whatever token follows the element type of a list
 				// type without checking it, so inside variable definitions the error surfaces later or never
-				c.Kind = "insert-never-viable(variable-definitions: upper bound skipped, D-03b)"
+				c.Kind += "(variable-definitions: upper bound skipped, D-03b)"
 				c.UB = -1
 			}
 		}
@@ -1357,7 +1423,7 @@ func main() {
 	streams := []stream{
 		{"b", run.N(4000, 200000), genB},
 		{"c", run.N(1500, 60000), genC},
-		{"d", run.N(1200, 50000), genD},
+		{"d", run.N(1000, 50000), genD},
 		{"p", run.N(300, 5000), genP},
 		{"e", run.N(500, 30000), genE},
 	}
